@@ -7,22 +7,31 @@
 #ifndef MC_ATOMIC_POINTS_H
 #define MC_ATOMIC_POINTS_H
 void mc_yield(void);
-#define __atomic_load_n(p, o) (mc_yield(), __atomic_load_n(p, o))
-#define __atomic_store_n(p, v, o) (mc_yield(), __atomic_store_n(p, v, o))
-#define __atomic_fetch_add(p, v, o) (mc_yield(), __atomic_fetch_add(p, v, o))
-#define __atomic_fetch_sub(p, v, o) (mc_yield(), __atomic_fetch_sub(p, v, o))
-#define __atomic_fetch_and(p, v, o) (mc_yield(), __atomic_fetch_and(p, v, o))
-#define __atomic_fetch_or(p, v, o) (mc_yield(), __atomic_fetch_or(p, v, o))
-#define __atomic_fetch_xor(p, v, o) (mc_yield(), __atomic_fetch_xor(p, v, o))
-#define __atomic_exchange_n(p, v, o) (mc_yield(), __atomic_exchange_n(p, v, o))
-#define __atomic_compare_exchange_n(p, e, d, w, s, f) (mc_yield(), __atomic_compare_exchange_n(p, e, d, w, s, f))
-#define __atomic_thread_fence(o) (mc_yield(), __atomic_thread_fence(o))
+void mc_fail(const char* fmt, ...);
+/* WebAssembly atomic accesses are sequentially consistent: every builtin the runtime uses must be invoked with __ATOMIC_SEQ_CST.  The
+ * controlled scheduler is sequentially consistent itself and cannot show what a weaker order would allow on real hardware, so the order
+ * argument is checked where the call is made. */
+static inline void mc_atomic_point(int order, int order2) {
+    if (order != __ATOMIC_SEQ_CST || order2 != __ATOMIC_SEQ_CST)
+        mc_fail("atomic builtin invoked with memory order %d/%d, sequentially consistent (%d) is required", order, order2, __ATOMIC_SEQ_CST);
+    mc_yield();
+}
+#define __atomic_load_n(p, o) (mc_atomic_point(o, __ATOMIC_SEQ_CST), __atomic_load_n(p, o))
+#define __atomic_store_n(p, v, o) (mc_atomic_point(o, __ATOMIC_SEQ_CST), __atomic_store_n(p, v, o))
+#define __atomic_fetch_add(p, v, o) (mc_atomic_point(o, __ATOMIC_SEQ_CST), __atomic_fetch_add(p, v, o))
+#define __atomic_fetch_sub(p, v, o) (mc_atomic_point(o, __ATOMIC_SEQ_CST), __atomic_fetch_sub(p, v, o))
+#define __atomic_fetch_and(p, v, o) (mc_atomic_point(o, __ATOMIC_SEQ_CST), __atomic_fetch_and(p, v, o))
+#define __atomic_fetch_or(p, v, o) (mc_atomic_point(o, __ATOMIC_SEQ_CST), __atomic_fetch_or(p, v, o))
+#define __atomic_fetch_xor(p, v, o) (mc_atomic_point(o, __ATOMIC_SEQ_CST), __atomic_fetch_xor(p, v, o))
+#define __atomic_exchange_n(p, v, o) (mc_atomic_point(o, __ATOMIC_SEQ_CST), __atomic_exchange_n(p, v, o))
+#define __atomic_compare_exchange_n(p, e, d, w, s, f) (mc_atomic_point(s, f), __atomic_compare_exchange_n(p, e, d, w, s, f))
+#define __atomic_thread_fence(o) (mc_atomic_point(o, __ATOMIC_SEQ_CST), __atomic_thread_fence(o))
 /* other spellings a rewrite might reach for */
-#define __atomic_add_fetch(p, v, o) (mc_yield(), __atomic_add_fetch(p, v, o))
-#define __atomic_sub_fetch(p, v, o) (mc_yield(), __atomic_sub_fetch(p, v, o))
-#define __atomic_and_fetch(p, v, o) (mc_yield(), __atomic_and_fetch(p, v, o))
-#define __atomic_or_fetch(p, v, o) (mc_yield(), __atomic_or_fetch(p, v, o))
-#define __atomic_xor_fetch(p, v, o) (mc_yield(), __atomic_xor_fetch(p, v, o))
+#define __atomic_add_fetch(p, v, o) (mc_atomic_point(o, __ATOMIC_SEQ_CST), __atomic_add_fetch(p, v, o))
+#define __atomic_sub_fetch(p, v, o) (mc_atomic_point(o, __ATOMIC_SEQ_CST), __atomic_sub_fetch(p, v, o))
+#define __atomic_and_fetch(p, v, o) (mc_atomic_point(o, __ATOMIC_SEQ_CST), __atomic_and_fetch(p, v, o))
+#define __atomic_or_fetch(p, v, o) (mc_atomic_point(o, __ATOMIC_SEQ_CST), __atomic_or_fetch(p, v, o))
+#define __atomic_xor_fetch(p, v, o) (mc_atomic_point(o, __ATOMIC_SEQ_CST), __atomic_xor_fetch(p, v, o))
 #define __sync_fetch_and_add(p, v) (mc_yield(), __sync_fetch_and_add(p, v))
 #define __sync_val_compare_and_swap(p, e, d) (mc_yield(), __sync_val_compare_and_swap(p, e, d))
 #define __sync_bool_compare_and_swap(p, e, d) (mc_yield(), __sync_bool_compare_and_swap(p, e, d))
